@@ -24,12 +24,7 @@ Theorem C20_names :
        join3 (Gen.EntryKind_DirName (kind_num k)) (take2 hash) (print_name (shape k legacy hash size random)) /\
      recognise (basename (file_location k legacy hash size random)) = Some (shape k legacy hash size random)) /\
   (forall name p, recognise name = Some p -> print_name p = name /\ parsed_ok p).
-Proof.
-  split; [reflexivity|]. split; [reflexivity|]. split; [reflexivity|]. split.
-  - intros k legacy hash size random Hh Hr Hs. split; [|apply names_roundtrip; assumption].
-    rewrite file_location_eq. destruct k; reflexivity.
-  - exact recognise_spec.
-Qed.
+Proof. exact C20_names_lemma. Qed.
 Print Assumptions C20_names.
 
 (* The four published shapes, spelled out. *)
@@ -39,10 +34,7 @@ Theorem C20_name_shapes :
     file_location RAW false hash size random = "raw.v2/" ++ take2 hash ++ "/" ++ hash ++ "-" ++ random /\
     file_location CAS false hash size random = "cas.v2/" ++ take2 hash ++ "/" ++ hash ++ "-" ++ print_dec size ++ "-" ++ random /\
     file_location CAS true hash size random = "cas.v2/" ++ take2 hash ++ "/" ++ hash ++ "-" ++ random ++ ".v1".
-Proof.
-  intros. unfold file_location, join3, fmt_cas_v1, fmt_cas_v2. cbn [sprintf Ascii.eqb Bool.eqb].
-  rewrite ?app_nil_r_s. repeat split; reflexivity.
-Qed.
+Proof. exact C20_name_shapes_lemma. Qed.
 Print Assumptions C20_name_shapes.
 
 (* The legacy layouts migrate to names of the same grammar, with the fixed suffixes of load.go. *)
@@ -53,16 +45,7 @@ Theorem C20_migration_targets :
     recognise (v0_target_name k hash) = Some (mkParsed hash None "222444666" (match k with CAS => true | _ => false end)) /\
     recognise (v1_target_name k hash) =
       Some (mkParsed hash None (match k with CAS => "556677" | _ => "112233" end) (match k with CAS => true | _ => false end)).
-Proof.
-  split; [reflexivity|]. split; [reflexivity|]. intros k hash Hh. split.
-  - replace (v0_target_name k hash) with (print_name (mkParsed hash None "222444666" (match k with CAS => true | _ => false end)))
-      by (destruct k; reflexivity).
-    apply recognise_print. repeat split; auto.
-  - replace (v1_target_name k hash) with
-      (print_name (mkParsed hash None (match k with CAS => "556677" | _ => "112233" end) (match k with CAS => true | _ => false end)))
-      by (destruct k; reflexivity).
-    apply recognise_print. repeat split; auto. destruct k; reflexivity.
-Qed.
+Proof. exact C20_migration_targets_lemma. Qed.
 Print Assumptions C20_migration_targets.
 
 (* ---- backend names -------------------------------------------------------------------------- *)
@@ -126,7 +109,7 @@ Theorem C20_backend_literals :
   Gen.Names.grpc_Get_assign = ["blobs/%s/%d"; "compressed-blobs/zstd/%s/%d"] /\
   firstn 2 Gen.Names.grpc_UploadFile_assign = ["uploads/%s/blobs/%s/%d"; "uploads/%s/compressed-blobs/zstd/%s/%d"] /\
   (forall k, Gen.EntryKind_String (kind_num k) = kind_str k /\ Gen.EntryKind_DirName (kind_num k) = kind_dir k).
-Proof. repeat split; try reflexivity; destruct k; reflexivity. Qed.
+Proof. exact C20_backend_literals_lemma. Qed.
 Print Assumptions C20_backend_literals.
 
 (* ---- non-vacuity ---------------------------------------------------------------------------- *)
